@@ -211,6 +211,7 @@ type Conn struct {
 	connectionClosedByUser bool
 	closeLock              sync.Mutex
 	closed                 *closer.Closer
+	closeNotifyOnce        sync.Once
 
 	readDeadline  *deadline.Deadline
 	writeDeadline *deadline.Deadline
@@ -2251,7 +2252,13 @@ func (c *Conn) processIncomingPacket(
 	outcome, err := c.handleIncomingPacket(ctx, buf, rAddr, bufferLease)
 	if outcome.responseAlert != nil {
 		responseAlert := outcome.responseAlert
-		if alertErr := c.notify(ctx, responseAlert.Level, responseAlert.Description); alertErr != nil && err == nil {
+		alertErr := error(nil)
+		if responseAlert.Level == alert.Warning && responseAlert.Description == alert.CloseNotify {
+			alertErr = c.sendCloseNotify(ctx)
+		} else {
+			alertErr = c.notify(ctx, responseAlert.Level, responseAlert.Description)
+		}
+		if alertErr != nil && err == nil {
 			err = alertErr
 		}
 	}
@@ -2821,10 +2828,22 @@ func (c *Conn) close(byUser bool) error {
 	if c.isHandshakeCompletedSuccessfully() && byUser {
 		// Discard error from notify() to return non-error on user Close()
 		// even if the underlying connection is already closed.
-		_ = c.notify(context.Background(), alert.Warning, alert.CloseNotify)
+		_ = c.sendCloseNotify(context.Background())
 	}
 
 	return c.nextConn.Close()
+}
+
+// sendCloseNotify writes the close_notify alert. An endpoint sends it at most
+// once, whether it announces its own Close or answers the peer's close_notify:
+// the two can race when the application closes while the read loop is replying.
+func (c *Conn) sendCloseNotify(ctx context.Context) error {
+	var err error
+	c.closeNotifyOnce.Do(func() {
+		err = c.notify(ctx, alert.Warning, alert.CloseNotify)
+	})
+
+	return err
 }
 
 func (c *Conn) isConnectionClosed() bool {
